@@ -23,6 +23,7 @@ class NoiseArray(np.ndarray):
             operand = np.array(other, dtype=float).copy()
             ev['operand'] = operand.flatten()
             ev['consumed'] = True
+            ev['noise_values'] = int(self.size)
             rec = tap.recorded[ev['index']] if (tap.mode == 'replay' and ev['index'] < len(tap.recorded)) else None
             if rec is not None and rec.get('released') is not None and np.size(rec['released']) == operand.size and rec['kind'] == ev['kind']:
                 released = np.array(rec['released'], dtype=float).reshape(np.shape(operand))
@@ -70,10 +71,11 @@ class Tap(object):
         self.events.append(ev)
         if self.mode == 'replay':
             self._check_alignment(ev)
-        if not self.wrap_noise or np.ndim(draw) == 0:
+        if not self.wrap_noise:
             ev['consumed'] = True
             return draw + loc
-        arr = np.asarray(draw + loc).view(NoiseArray)
+        # a scalar draw is wrapped as a 0-d array so that adding it to a vector statistic is still observed
+        arr = np.asarray(draw + loc, dtype=float).view(NoiseArray)
         arr._tap = self; arr._event = ev
         return arr
 
